@@ -447,6 +447,15 @@ theorem setNets_value_model_matches_translation (s : Nets) (limits cells : List 
       netView (BusySizes.execS BusySizes.noCallS (setArgs limits cells nxo nyo nwt) 0 f.body ⟨false, absSz s⟩).st.sz
         = netView (absSz (step s (.set limits cells nxo nyo nwt))) := setNets_refines s limits cells nxo nyo nwt
 
+/-- **The nets partition the pins**, after any history: the pin counts `nbPinsNet(n)` of the `nbNets()` nets add up to
+`nbPins()` — together with `net_getters_in_range`, iterating "for every net, for every pin of the net" visits every entry of
+the per-pin vectors exactly once. -/
+theorem nets_partition_pins (n : Int) (ops : List Op) :
+    ((List.range (nbNets (run (NetsValue.init n) ops)).toNat).map (nbPinsNet (run (NetsValue.init n) ops))).sum
+      = nbPins (run (NetsValue.init n) ops) ∧
+    nbPins (run (NetsValue.init n) ops) = (run (NetsValue.init n) ops).pins.length :=
+  ⟨pins_partitioned (nets_wf_after_any_history n ops), (nets_wf_after_any_history n ops).backPins⟩
+
 /-- The value invariant implies the five net clauses of the size invariant on the abstraction: `netLimits_` non-empty, one
 weight per net, the three per-pin vectors of `nbPins() = netLimits_.back()` entries — the two invariants agree where they
 overlap. -/
